@@ -252,6 +252,18 @@ func execServe(args []string) (res Result) {
 	if err != nil {
 		return Result{Impl: "server-error:" + err.Error()}
 	}
+	// history: the same batch was sent to the same server before, in another environment
+	if ph := historyPhase(cw.D[w.Invs[0]].Link().String()); ph != "" {
+		cw.phase = ph
+		cw.serveBatch(srv, &calls)
+		mu.Lock()
+		calls = nil
+		mu.Unlock()
+		log.mu.Lock()
+		log.Checker, log.Derives, log.Resolved = nil, nil, nil
+		log.mu.Unlock()
+		cw.phase = ""
+	}
 	statuses, problems := cw.serveBatch(srv, &calls)
 	impl := serveCanon(&w, statuses, calls)
 	if len(problems) > 0 {
